@@ -733,6 +733,11 @@ def refusal_cases(rng, thorough):
     pf("glob-missing-source", [{"t": "glob", "p": "/g", "m": None, "u": None, "g": None, "opts": [], "src": "nosuchdir"}])
     pf("glob-onto-file", [P("/g"), {"t": "glob", "p": "/g", "m": None, "u": None, "g": None, "opts": [], "src": "src"}])
     pf("glob-over-existing-entry", [P("/g/f"), {"t": "glob", "p": "/g", "m": None, "u": None, "g": None, "opts": [], "src": "src"}])
+    # SQFS_MAX_DIR_NESTING: 4096 nested directories are fine (and may hold entries), the 4097th level is refused
+    deep = "/d" * 4096
+    pf("nesting-4096-accepted", [P(deep + "/pipe"), {"t": "dir", "p": "/d" * 4000, "m": 0o700, "u": 1, "g": 1}])
+    pf("nesting-4097-explicit", [{"t": "dir", "p": deep + "/d", "m": 0o755, "u": 0, "g": 0}])
+    pf("nesting-4097-implicit", [P(deep + "/d/pipe")])
     pf("block-size-3000", [P("/x")], opts={"comp": "gzip", "bs": 3000})
     pf("block-size-2M", [P("/x")], opts={"comp": "gzip", "bs": 2 << 20})
     pf("block-size-2048", [P("/x")], opts={"comp": "gzip", "bs": 2048})
